@@ -61,6 +61,9 @@ CLAIMED['C20'] = ('other', 'partial scope (DESIGN.md C20): bounded symbolic exec
 CLAIMED['C17'] = ('other', 'partial scope (DESIGN.md C17): for every shipped configuration the environment built by factory_env_from_data and one assembled in the harness from the named registry functions are compared by bounded symbolic execution - equal next states for a lazily symbolic state and action, equal reward / flag / observation for a symbolic agent pose and action on reset layouts, equal initial states for the same symbolic draws - and structurally (same functions, same bound parameters, unaccepted ones dropped; spaces; input dict unchanged; second build agrees); factory(name, **kw) binds exactly the accepted keywords for symbolic numeric parameters. Identity of packaged copies, id-to-file mapping and rejection of corrupted files are concrete side checks',
                   'trusts z3, the proxy layer, the stubs and the mini YAML reader (PyYAML is not installed in the sandbox); gym.make is outside', 'DESIGN.md §5 C17')
 
+CLAIMED['C14'] = ('other', 'universal part by bounded symbolic execution of the real reset functions with every draw symbolic (one path per outcome of all draws); existential part per initial state: the successor relation is produced by the real GridWorld.functional_step of the shipped composition over every reachable (state, action, draw outcome), z3 fixedpoint (datalog) decides whether a rewarded exit is in the least fixpoint without passing through a terminating state, and the witness action/draw sequence is replayed on the real step function. One genuine defect (memory_rooms) is recorded as a known finding',
+                  'trusts z3 (SMT and datalog engines), the proxy layer, SymRng/ScriptRng; the successor relation is obtained by executing the real step function on concrete states (the existential search itself is explicit-state, the solver decides the fixpoint); shapes beyond the bounds are outside', 'DESIGN.md §5 C14')
+
 NOT_APPLICABLE = {
     'C19': 'floating-point trigonometric ray kernel (sin/cos/arctan2 via libm/numpy, round-to-nearest of accumulated float steps): no SMT theory for the transcendental part, the only FP-expressible lemma timed out (300 s) on z3 and cvc5, and the remaining inputs form a small finite domain a solver would merely enumerate; see DESIGN.md §5 C19',
 }
